@@ -14,7 +14,10 @@ CLAIMED = {
         "holds for all keys of all lengths, which no enumeration reaches.",
    note="Trusted: the pyvc VC generator and its encoding of Python (DESIGN 3.3); z3/cvc5; axiom A-split for bytes.split() "
         "(cross-checked against CPython every run); str keys modelled by their UTF-8 encoding + is-ASCII flag (over-approximated); "
-        "HashClient._get_client's call of the helper is covered under C12.",
+        "HashClient._get_client's call of the helper (routing key, allow_unicode_keys, key_prefix) is a unit of this check; a key "
+        "rejected by the inner Client is rejected by every PooledClient method, also with ignore_exc (the clause that exposed the "
+        "defect repaired in /repo 6c537cc). Bounded stand-in for out-of-reach code: a key corpus (every byte at four positions, "
+        "boundary lengths, prefixes, unicode) through check_key_helper and the three client classes.",
    technique="contract-based deductive verification: AST->VC generation over the real source, per-path string/regex VCs, z3+cvc5",
    ref="5 C20"),
  "C17": dict(
@@ -36,7 +39,8 @@ CLAIMED = {
         "it requires that all caches missed. Every write is one call on caches[0] whose arguments, bound against Client's current "
         "signature, equal the caller's. Holds for any number of caches and any hit/miss assignment.",
    note="Trusted: pyvc VC generator; z3; caches obey the Client contract for a miss (get -> None, gets -> (None, None), *_many -> {}); "
-        "the value returned when every cache misses is not constrained (the statement fixes only the first hit).",
+        "the value returned when every cache misses is not constrained (the statement fixes only the first hit). Bounded stand-in for "
+        "out-of-reach code: exhaustive hit/miss assignments per method and three-operation histories over logging caches.",
    technique="contract-based deductive verification: loop invariants over a ghost call log, call-binding VCs, z3",
    ref="5 C18"),
  "C11": dict(
@@ -48,7 +52,10 @@ CLAIMED = {
         "through normalize_server_spec before add_server (loop invariant over a ghost log). Unbounded in nodes, keys and hash values.",
    note="Trusted: pyvc VC generator; z3 (arrays + quantifiers); string order = code-point order; hash_function pure with results >= 0 (C14 for "
         "murmur3_32). BOUNDED stand-in (not counted as discharged): equivalent address spellings of normalize_server_spec are enumerated on "
-        "the real function (about 50 spellings). Not expressible: 'keys spread over all servers' (statistical).",
+        "the real function (about 50 spellings). HashClient._get_client's contract (the RAW routing key is "
+        "what the placement function receives) is a unit of this check. When a changed function leaves the verifier's reach a bounded "
+        "replay stands in (published rule, mutators, add/remove/swap histories, routing through HashClient). Not expressible: 'keys "
+        "spread over all servers' (statistical).",
    technique="contract-based deductive verification: loop invariant + quantified lemmas (z3); one clause by bounded enumeration",
    ref="5 C11"),
  "C14": dict(
@@ -99,7 +106,7 @@ CLAIMED = {
         "close() never raises and leaves self.sock None.",
    note="Trusted: the ghost socket-module contract (the OS/ssl: each call succeeds or raises an Exception-class error; closing a TLS wrapper "
         "closes the wrapped socket; getaddrinfo never returns an empty list); pyvc; z3. 'Next call reconnects' is this contract plus C01's "
-        "exceptional postcondition. Non-Exception interruptions are C10.",
+        "exceptional postcondition of the exchange functions, re-proved in the same run (dep:C01). Non-Exception interruptions are C10.",
    technique="contract-based deductive verification: loop invariant over ghost socket counters, per-exit VCs with event logs, z3",
    ref="5 C06"),
  "C02": dict(
@@ -142,8 +149,8 @@ CLAIMED = {
         "full). Every PooledClient method with get_and_release inlined: the slot is given back on every normal and Exception exit, a "
         "failed client is destroyed and closed exactly once and not put in free, a swallowed failure leaves a client whose socket the "
         "inner Client closed, a healthy client returns to free, quit always destroys.",
-   note="Trusted: deque axioms, contextmanager single-yield semantics, inner Client contract (raising exit => socket closed: C01/C06), "
-        "monotone clock. Sequential property; thread interleavings are C08's assumption.",
+   note="Trusted: deque axioms, contextmanager single-yield semantics, monotone clock. The inner Client contract (a raising exit after the "
+        "exchange started leaves the socket closed and dropped) is re-proved in the same run (dep:C01). Sequential property; thread interleavings are C08's assumption.",
    technique="contract-based deductive verification: data-structure invariant + loop invariant, inlined context manager (z3)",
    ref="5 C09"),
  "C10": dict(
